@@ -65,7 +65,7 @@ def _(c):
               " and implies(q in self._records, self._records[q] == old(self._records[q]))))")
 
 
-@contract(MOD + ":Fetcher._proc_fetch_request", ["C03", "C13", "C05", "C04"])
+@contract(MOD + ":Fetcher._proc_fetch_request", ["C03", "C13", "C05", "C04", "C08"])
 def _(c):
     c.self_("Fetcher")
     c.param("assignment", Ref("Assignment"))
@@ -119,6 +119,16 @@ def _(c):
     FRESHPOS = "tp_state._position is not None and tp_state._position == fetch_offset"
     c.hook("before", "PartitionRecords", [
         ("assert", "records-start-at-the-requested-offset", "a0 == tp and a3 == fetch_offset"),
+        # C08: the aborted-transaction index and the last stable offset exist from FetchResponse v4 on (KIP-98); whenever the
+        # broker sent them they reach the record iterator / the partition state, at that version's place in the entry
+        # (v4: [lso, aborted, records]; v5+: [lso, log_start, aborted, ...])
+        ("assert", "the-aborted-transaction-index-the-broker-sent-reaches-the-record-iterator",
+         "implies(response.API_VERSION >= 4, a2 is not None and a2 == part_data[1 if response.API_VERSION == 4 else 2])"
+         " and implies(response.API_VERSION < 4, a2 is None)"),
+        ("assert", "the-last-stable-offset-the-broker-sent-is-recorded",
+         "implies(response.API_VERSION >= 4, tp_state.lso is not None and tp_state.lso == part_data[0])"
+         " and implies(response.API_VERSION < 4, tp_state.lso is None)"),
+        ("assert", "the-isolation-level-configured-reaches-the-record-iterator", "a7 == self._isolation_level and a6 == self._check_crcs"),
     ])
     c.hook("before", "FetchResult", [
         ("assert", "buffered-only-under-the-live-assignment", "not assignment.unassign_future.done() and kw_assignment == assignment"),
@@ -175,9 +185,9 @@ def batch(offset):
 
 def rest(version, raw):
     if version < 4: return [raw]
-    if version == 4: return [100, [], raw]
-    if version <= 10: return [100, 0, [], raw]
-    return [100, 0, [], -1, raw]
+    if version == 4: return [100, [(77, 2)], raw]
+    if version <= 10: return [100, 0, [(77, 2)], raw]
+    return [100, 0, [(77, 2)], -1, raw]
 
 async def one(version, code, policy, stale, payload):
     client = AIOKafkaClient(bootstrap_servers=[])
@@ -221,6 +231,10 @@ async def one(version, code, policy, stale, payload):
         if code == 0 and payload == "batch":
             if not isinstance(buf, FetchResult) or buf._partition_records.next_fetch_offset != 4 or st.position != 4:
                 return what + ": expected the batch buffered at offset 4, got %r" % (buf,)
+            want_aborted, want_lso = ([(77, 2)], 100) if version >= 4 else ([], None)
+            if buf._partition_records._aborted_transactions != want_aborted or st.lso != want_lso:
+                return what + ": the broker's aborted-transaction index / last stable offset did not arrive: iterator has %r, lso %r" % (
+                    buf._partition_records._aborted_transactions, st.lso)
             rec = buf.getone()
             if rec is None or rec.offset != 4:
                 return what + ": first record handed out is %r" % (rec,)
